@@ -1,7 +1,7 @@
 (* C03 — a failure in any thread stops the whole system instead of hanging it.
    Only statements; proofs in Proofs/ThreadsFault.v, Proofs/ThreadsProto.v, Proofs/ThreadsInv2.v, Proofs/ThreadsLive.v. *)
 From Coq Require Import List Bool Arith.
-From Pamiq Require Import Model.Threads Check.Sys Proofs.ThreadsInv Proofs.ThreadsInv2 Proofs.ThreadsLive Proofs.ThreadsProto Proofs.ThreadsFault.
+From Pamiq Require Import Model.Threads Check.Sys Proofs.ThreadsInv Proofs.ThreadsInv2 Proofs.ThreadsLive Proofs.ThreadsProto Proofs.ThreadsFault Proofs.ThreadsFlag.
 Import ListNotations.
 
 (* For any number of threads and EVERY accepted trace (every failing callback and occurrence, in either
@@ -65,3 +65,13 @@ Proof. reflexivity. Qed.
 Example C03_rejects_swallowed_control_failure :
   C03_ok [(TCtl, LSaveCondRaise); (TCtl, LLaunchDone false)] = false.
 Proof. reflexivity. Qed.
+
+(* In the configuration of the real system (inference thread 0 with agent and environment, training thread 1
+   with the trainers) and on EVERY accepted trace: a background thread whose callback raised - setup, a step, a
+   training run, a pause or resume hook; not its teardown, after which nothing more runs - sets its exception
+   flag before it ends, whatever else fails on the way (a callback that keeps failing included).  Without the
+   flag the control thread never learns of the dead thread and the system carries on without it. *)
+Theorem C03_failure_is_flagged_on_model : forall max_attempts qmax with_web tr s,
+  run 2 kind2 max_attempts qmax with_web init tr = Some s -> C03_flagged tr = true.
+Proof. exact C03_failure_is_flagged. Qed.
+Print Assumptions C03_failure_is_flagged_on_model.
